@@ -48,7 +48,7 @@ CLAIMED = {
             TRUST, "DESIGN.md §4 C12, §9.6 round 5"),
     "C13": (SIM + ": seeded operation histories on the real in-memory word streams vs. array+cursor model, out-of-range reads/writes/seeks as injected faults",
             "exploration",
-            "Seeded search over call histories (read/write/pos/set_pos/len/flush, <=40 calls) on all four in-memory word streams, five word types, owned and borrowed storage; every return value and the final contents are compared with an array+cursor reference model after each step.",
+            "Seeded search over call histories (read/write/pos/set_pos/len/flush and, for the readers, clone-and-continue; <=40 calls) on all four in-memory word streams, five word types, owned and borrowed storage; every return value and the final contents are compared with an array+cursor reference model after each step.",
             "Trusts the array+cursor model written from the property text; set-position targets include 2^k + small, 2^63 +- small and values up to 2^64-1 (2^64-1200 for the zero-extended reader, so that following reads cannot overflow its cursor).",
             "DESIGN.md §4 C13"),
     "C14": (SIM + ": the same history on a bare stream and through CountBit*/DbgBit* wrappers created mid-stream, through every path the wrappers expose",
